@@ -117,6 +117,9 @@ func expected(c Cascade, failFirst bool) (run map[[2]int]bool, fail map[[2]int]b
 }
 
 func runCase(c Case) (fail *hx.Failure) {
+	// rule actions run on pool workers: a panic or a fatal runtime abort there kills the process - leave the case behind for the driver
+	hx.WriteInflight(c)
+	defer hx.ClearInflight()
 	if c.ECAL {
 		return runECAL(c)
 	}
